@@ -698,7 +698,11 @@ class TransformToGaussian(OutputWarper):
     labels_arr = np.asarray(labels_arr, dtype=np.float64)
     labels_arr_flattened = labels_arr.flatten()
     if self.use_rank:
-      base_for_transform = np.argsort(labels_arr_flattened)
+      # Dense ranks: equal labels share a rank. (argsort returns the sorting
+      # permutation, not the ranks.)
+      base_for_transform = np.unique(
+          labels_arr_flattened, return_inverse=True
+      )[1].reshape(labels_arr_flattened.shape)
     else:
       base_for_transform = labels_arr_flattened
     base_for_transform_normalized = (
